@@ -50,6 +50,7 @@ def gen_names(r, n, kind):
 
 class Check(CheckBase):
     property_id = 'C13'
+    evaluations_counter = 'returns_compared'
     level = 'exploration'
     rule = ('operation sequences of 40-150 calls {upload, upload_stream, download, download_stream, exists, delete (also of absent '
             'names, twice), list_files(prefix)} on the real Local / S3Compatible / S3 / B2 adapters (S3 and B2 behind fake services '
